@@ -139,8 +139,8 @@ def run_case(case):
                       write=False)
         dbg = restext.parse_debug(call_repo('get_debug()', solver.get_debug))
         flat = [t for row in dbg['pairs'] for t in row]
-        if flat != want_all or [len(r) for r in dbg['pairs']] != \
-                [sum(len(g) for g in pl) for pl in I['prefs']]:
+        if flat != want_all or [len(r) for r in dbg['pairs'] if r] != \
+                [sum(len(g) for g in pl) for pl in I['prefs'] if pl]:
             raise Violation('debug_block', 'Model instance information shows %r, the file '
                             'denotes %r' % (dbg['pairs'], want_all))
         res = restext.parse_results(call_repo('get_results()', solver.get_results))
@@ -148,8 +148,22 @@ def run_case(case):
             if res['stats']['cost'][1] != 0 or res['stats']['cost_sq'][1] != 0:
                 raise Violation('one_sided_lecturer_cost', 'no -twopl but lecturer cost %r / %r'
                                 % (res['stats']['cost'], res['stats']['cost_sq']))
+        # "the instance the solver works on has ... the same quotas": the solve is the work.
+        # With no further option the run is Optimal exactly when the instance the file denotes
+        # has a valid matching, and the matching respects the quotas written in the file
+        o = refmodel.Oracle(inst, case['twopl'], case['pc'])
+        has_valid = any(o.valid(M) for M in o.assignments())
+        if res['pulp_status'] in ('Optimal', 'Infeasible') and \
+                (res['pulp_status'] == 'Optimal') != has_valid:
+            raise Violation('solved_instance_differs', 'the instance the file denotes has %s valid '
+                            'matching, the solver reports %s' % ('a' if has_valid else 'no',
+                                                                 res['pulp_status']))
+        if res['pulp_status'] == 'Optimal' and res['matching'] is not None:
+            why = o.why_invalid(res['matching'])
+            if why:
+                raise Violation('solved_instance_differs', 'matching %r does not fit the quotas '
+                                'written in the file: %s' % (res['matching'], why))
         if res['pulp_status'] == 'Optimal':
-            o = refmodel.Oracle(inst, case['twopl'], case['pc'])
             M = res['matching']
             if o.acceptable(M):
                 st_ = o.stats(M)
@@ -182,3 +196,4 @@ MANIFEST = {
             'the writer refmodel.render.',
 }
 MANIFEST['text'] += (' ' + 'Whitespace noise includes every ASCII character str.split() treats as blank (form feed, vertical tab, FS/GS/RS/US) and CRLF line ends.')
+MANIFEST['text'] += (' ' + 'The 30% of cases that are solved also require the verdict and the matching to fit the instance the file denotes (Optimal exactly when it has a valid matching; quotas of the file respected).')
